@@ -48,12 +48,23 @@ def _variants(wire, **switches):
     return {J.ja3(wire, drop_grease_like_formats=drop, **switches) for drop in (False, True)}
 
 
+_PROCESS = {'parsed_any': False}
+# ServerHello (TLS 1.2) with extended_master_secret, renegotiation_info and ec_point_formats
+SERVER_HELLO_FIRST = bytes.fromhex('020000350303' + '11' * 32 + '00' + 'c02f' + '00' + '000d' + '00170000' + 'ff01000100' + '000b00020100')
+
+
 def evaluate(case):
     hello = dict((key, value) for key, value in case['hello'].items() if key != 'record_version')
     wire = R.encode(hello)
     findings = []
     info = {'wire': wire, 'stratum': stratum_of(hello['cipher_suites']), 'skipped': None}
     S = c06.lib().S
+    if case.get('server_first') and not _PROCESS['parsed_any']:
+        # the first hello this process ever parses is a server hello (a scanner reads the server's answer before it
+        # ever sees a client hello): the value of a client hello must not depend on that
+        c06._call(lambda: S.TlsHandshakeServerHello.parse_exact_size(SERVER_HELLO_FIRST))  # pylint: disable=protected-access
+        info['server_first'] = True
+    _PROCESS['parsed_any'] = True
     parsed, error = c06._call(lambda: S.TlsHandshakeClientHello.parse_exact_size(wire))  # pylint: disable=protected-access
     if error is not None:
         if not c06.split_scsv(hello['cipher_suites'])[0]:
@@ -92,10 +103,67 @@ def evaluate(case):
         after, error = c06._call(parsed.ja3)  # pylint: disable=protected-access
         if error is not None or after != got:
             findings.append(Finding('ja3/not-a-function', {'first': got[:400], 'second': None if after is None else after[:400]}))
+    if not findings:
+        findings.extend(_edited_in_place(S, wire))
     return findings, info
 
 
+def _edited_in_place(S, wire):
+    """A hello edited in place (more groups appended to its supported_groups extension, the way the repository's own
+    JA3 test does): ja3() of the object, the published algorithm applied to the bytes it composes, and ja3() of those
+    bytes parsed again are one value."""
+    edited, error = c06._call(lambda: S.TlsHandshakeClientHello.parse_exact_size(wire))  # pylint: disable=protected-access
+    if error is not None:
+        return []
+    target = None
+    for extension in edited.extensions:
+        curves = getattr(extension, 'elliptic_curves', None)
+        if curves is not None and len(curves):
+            target = curves
+            break
+    if target is None:
+        return []
+    _done, error = c06._call(lambda: target.extend([list(target)[0], list(target)[-1]]))  # pylint: disable=protected-access
+    if error is not None:
+        return []          # the vector is at its ceiling: not an edit it accepts
+    _edited_in_place.count += 1
+    value, error = c06._call(edited.ja3)  # pylint: disable=protected-access
+    composed, compose_error = c06._call(lambda: bytes(edited.compose()))  # pylint: disable=protected-access
+    if error is not None or compose_error is not None:
+        return [Finding('ja3/edited-in-place', {'error': repr(error or compose_error)[:300], 'wire': wire.hex()[:400]})]
+    reparsed, error = c06._call(lambda: S.TlsHandshakeClientHello.parse_exact_size(composed).ja3())  # pylint: disable=protected-access
+    try:
+        accepted = _variants(composed) | _variants(composed, keep_grease_suites=True) | _variants(composed, drop_scsv=True) | \
+            _variants(composed, keep_grease_suites=True, drop_scsv=True)
+    except Exception as e:  # pylint: disable=broad-except
+        return [Finding('ja3/edited-in-place', {'what': 'the composed bytes are not a client hello the reference can read',
+                                                'error': repr(e)[:200], 'composed': composed.hex()[:400]})]
+    if error is not None or reparsed != value or value not in accepted:
+        return [Finding('ja3/edited-in-place', {
+            'object': value[:300], 'reparsed': None if reparsed is None else reparsed[:300],
+            'error': None if error is None else repr(error)[:200], 'composed': composed.hex()[:400]})]
+    return []
+
+
+_edited_in_place.count = 0
+
+
 def check_case(case):
+    if case.get('fresh_process') and not __import__('os').environ.get('VERIF_C15_CHILD'):
+        # a finding of the server-first history is replayed in a fresh interpreter as well
+        import json  # pylint: disable=import-outside-toplevel
+        import os  # pylint: disable=import-outside-toplevel
+        import subprocess  # pylint: disable=import-outside-toplevel
+        import sys  # pylint: disable=import-outside-toplevel
+        from vf.core import env  # pylint: disable=import-outside-toplevel
+        single = dict(case)
+        single.pop('fresh_process')
+        proc = subprocess.run([sys.executable, '-B', '-m', 'vf.props.c15'], cwd=env.VERIF_DIR, stdout=subprocess.PIPE,
+                              stderr=subprocess.PIPE, timeout=600,
+                              env=dict(os.environ, VERIF_C15_CHILD='case', VERIF_C15_CASE=json.dumps(single)))
+        if proc.returncode != 0:
+            raise RuntimeError('C15 child failed: %s' % proc.stderr.decode()[-2000:])
+        return [Finding(key, detail) for key, detail in json.loads(proc.stdout.decode().strip().splitlines()[-1])]
     return evaluate(case)[0]
 
 
@@ -103,6 +171,8 @@ def case_fn(case, stats):
     findings, info = evaluate(case)
     stats.evaluated()
     stats.label('stratum:' + info['stratum'])
+    if info.get('server_first'):
+        stats.label('first-hello-of-the-process-was-a-server-hello')
     if info['skipped']:
         stats.label('skipped:' + info['skipped'])
         return findings
@@ -162,18 +232,64 @@ def _shard(arg):
                 stats.finding(finding, case)
         stats.label('fixed', stats.evaluations)
         return stats
-    _, stratum, seed_value, count = arg
-    hyp.explore(cases(stratum), case_fn, stats, count, seed_value)
+    _, stratum, seed_value, count = arg[:4]
+    strategy = cases(stratum)
+    if len(arg) > 4 and arg[4]:
+        strategy = strategy.map(lambda case: dict(case, server_first=True))
+    hyp.explore(strategy, case_fn, stats, count, seed_value)
+    stats.labels['edited-in-place-then-composed'] += _edited_in_place.count
     return stats
 
 
 def run(ctx):
     # half of the budget for the strict stratum, the other half for the three deviation strata
     layout = ['S', 'G', 'V', 'GV', 'S', 'S', 'G', 'V'] * 2 if ctx.quick else ['S', 'G', 'V', 'GV', 'S', 'S', 'G', 'V'] * 20
-    per_shard = 1750 if ctx.quick else 3800
-    jobs = [('hyp', stratum, ctx.derive_seed('ja3', index), per_shard) for index, stratum in enumerate(layout)]
+    per_shard = 1000 if ctx.quick else 3800
+    jobs = [('hyp', stratum, ctx.derive_seed('ja3', index), per_shard, False) for index, stratum in enumerate(layout)]
     jobs.append(('fixed',))
-    return pool.run_shards(_shard, jobs)
+    stats = pool.run_shards(_shard, jobs)
+    _server_first_history(ctx, stats)
+    return stats
+
+
+def _child(seed_value, count):
+    """Runs in a fresh interpreter: the first hello it parses is a server hello, then `count` generated client hellos
+    of the strict stratum are judged.  Prints {'evaluations': n, 'findings': [[key, detail, case], ...]}."""
+    stats = Stats()
+
+    def first(case, inner):
+        return case_fn(dict(case, server_first=True), inner)
+    hyp.explore(cases('S'), first, stats, count, seed_value)
+    out = []
+    for key, entry in sorted(stats.findings.items()):
+        out.append([key, entry['detail'], dict(entry['case'], server_first=True, fresh_process=True)])
+    return {'evaluations': stats.evaluations, 'server_first': stats.labels.get('first-hello-of-the-process-was-a-server-hello', 0),
+            'findings': out}
+
+
+def _run_child(seed_value, count):
+    import json  # pylint: disable=import-outside-toplevel
+    import os  # pylint: disable=import-outside-toplevel
+    import subprocess  # pylint: disable=import-outside-toplevel
+    import sys  # pylint: disable=import-outside-toplevel
+    from vf.core import env  # pylint: disable=import-outside-toplevel
+    environment = dict(os.environ, VERIF_C15_CHILD='%d:%d' % (seed_value, count))
+    proc = subprocess.run([sys.executable, '-B', '-m', 'vf.props.c15'], cwd=env.VERIF_DIR, env=environment,
+                          stdout=subprocess.PIPE, stderr=subprocess.PIPE, timeout=1800)
+    if proc.returncode != 0:
+        raise RuntimeError('C15 child failed: %s' % proc.stderr.decode()[-2000:])
+    return json.loads(proc.stdout.decode().strip().splitlines()[-1])
+
+
+def _server_first_history(ctx, stats):
+    """History over the process: a scanner reads server hellos before it ever parses a client hello."""
+    result = _run_child(ctx.derive_seed('server-first'), 300 if ctx.quick else 6000)
+    stats.evaluations += result['evaluations']
+    stats.labels['fresh-process:server-hello-parsed-first'] += result['evaluations']
+    if not result['server_first']:
+        raise RuntimeError('C15 child did not parse the server hello first')
+    for key, detail, case in result['findings']:
+        stats.finding(Finding(key, detail), case)
 
 
 def shrink(ctx, key, entry, max_checks=500):  # pylint: disable=unused-argument
@@ -201,3 +317,16 @@ def shrink(ctx, key, entry, max_checks=500):  # pylint: disable=unused-argument
                 best, detail, progress = {'hello': smaller}, hit.detail, True
                 break
     return best, detail
+
+
+if __name__ == '__main__':
+    import json as _json
+    import os as _os
+    from vf.core import env as _env
+    if _os.environ.get('VERIF_C15_CHILD'):
+        _env.bootstrap()
+        if _os.environ['VERIF_C15_CHILD'] == 'case':
+            print(_json.dumps([[f.key, f.detail] for f in evaluate(_json.loads(_os.environ['VERIF_C15_CASE']))[0]], default=repr))
+        else:
+            _seed, _count = _os.environ['VERIF_C15_CHILD'].split(':')
+            print(_json.dumps(_child(int(_seed), int(_count)), default=repr))
